@@ -536,6 +536,7 @@ func TestC09(t *testing.T) {
 	// two dialects with different definitions of ids 0 and 66 side by side
 	c09twins(rep, r, genv)
 	c09extEarly(rep, vh.Sub(seed, "c09-extearly"))
+	c09oddVersions(rep, vh.Sub(seed, "c09-oddver"), genv, glist, dmsgs)
 	// successive links of one endpoint (the link goes down and comes back): every one starts counting at 0; and what the
 	// peer sends (its protocol version) has no say in what the node originates
 	c09generations(rep, r, genv)
@@ -632,6 +633,100 @@ func (*MessageTwinSixtySix) GetID() uint32 { return 66 }
 
 // c09twins interleaves writers (stream writers and nodes) of the main dialect and of the twin dialect; every frame's
 // checksum must be the one of its own dialect's definition, whichever dialect used the id first.
+// c09oddVersions: version values that are neither 1 nor 2. Whether a writer accepts them is its own business (the statement
+// speaks of "the configured protocol version", and these are none); IF it does, every frame it emits is still a frame of
+// ONE version: a v2 frame carries the v2 encoding of the message (extensions, zero-truncated), a v1 frame the v1 encoding.
+func c09oddVersions(rep *vh.Report, r *vh.RNG, genv *gateEnv, glist []*msgInfo, dmsgs []message.Message) {
+	check := func(api string, wire []byte, val reflect.Value, mi *msgInfo) bool {
+		f, n, st := ref.ParseAt(wire, 0)
+		if st != ref.ParseOK || n != len(wire) {
+			rep.Violation("api="+api+" what=version", "a writer configured with an out-of-range version emitted something that is not one whole frame", vh.Hex(wire))
+			return false
+		}
+		if f.MsgID != mi.Msg.GetID() {
+			rep.Inconclusive(fmt.Sprintf("C09 out-of-range versions (%s): frame %d where message %d was expected; not judged", api, f.MsgID, mi.Msg.GetID()))
+			return false
+		}
+		want := mi.Layout.Encode(val, f.Version == 2)
+		if !bytes.Equal(f.Payload, want) {
+			rep.Violation("api="+api+" what=v1ext", fmt.Sprintf("a writer configured with an out-of-range version emitted a v%d frame whose payload is not the v%d encoding of the message (extensions / truncation of the other version)", f.Version, f.Version),
+				map[string]interface{}{"msg": mi.Name, "wire": vh.Hex(wire), "want_payload": vh.Hex(want)})
+			return false
+		}
+		return true
+	}
+	var withExt []*msgInfo
+	for _, mi := range glist {
+		if mi.Layout.SizeExt > mi.Layout.SizeBase && mi.Msg.GetID() <= 255 {
+			withExt = append(withExt, mi)
+		}
+	}
+	if len(withExt) == 0 {
+		return
+	}
+	for _, ver := range []int{3, 0x7F, 255} {
+		rw := &recWriter{}
+		fw := &frame.Writer{ByteWriter: rw, DialectRW: genv.drw}
+		_ = fw.Initialize()
+		sw := &streamwriter.Writer{FrameWriter: fw, Version: streamwriter.Version(ver), SystemID: 5, ComponentID: 6}
+		if err := sw.Initialize(); err == nil {
+			rep.Count("out_of_range_versions_accepted_by_streamwriter", 1)
+			for i := 0; i < 40; i++ {
+				mi := withExt[r.Intn(len(withExt))]
+				val := reflect.New(mi.Type)
+				vh.FillMessage(r, mi.Layout, val, vh.ModeMixed)
+				rw.reset()
+				rep.Eval(1)
+				if err := sw.Write(val.Interface().(message.Message)); err != nil {
+					continue
+				}
+				if !check("streamwriter", rw.all(), val, mi) {
+					break
+				}
+			}
+		}
+		tr := fake.NewTransport("oddver")
+		node := &gomavlib.Node{Endpoints: []gomavlib.EndpointConf{gomavlib.EndpointCustom{ReadWriteCloser: tr}}, Dialect: &dialect.Dialect{Version: 3, Messages: dmsgs},
+			OutVersion: gomavlib.Version(ver), OutSystemID: 5, HeartbeatDisable: true}
+		if err := node.Initialize(); err != nil {
+			continue
+		}
+		rep.Count("out_of_range_versions_accepted_by_node", 1)
+		evCh := node.Events()
+		for {
+			if _, ok := (<-evCh).(*gomavlib.EventChannelOpen); ok {
+				break // (a write issued before the channel is open reaches nobody)
+			}
+		}
+		drained := make(chan struct{})
+		go func() {
+			defer close(drained)
+			for range evCh {
+			}
+		}()
+		var vals []reflect.Value
+		var mis []*msgInfo
+		for i := 0; i < 30; i++ {
+			mi := withExt[r.Intn(len(withExt))]
+			val := reflect.New(mi.Type)
+			vh.FillMessage(r, mi.Layout, val, vh.ModeMixed)
+			vals, mis = append(vals, val), append(mis, mi)
+			cp := reflect.New(mi.Type)
+			cp.Elem().Set(val.Elem())
+			_ = node.WriteMessageAll(cp.Interface().(message.Message))
+		}
+		tr.WaitWrites(len(vals), time.Second)
+		node.Close()
+		<-drained
+		for i, w := range tr.Writes() {
+			rep.Eval(1)
+			if i >= len(vals) || !check("node", w.Data, vals[i], mis[i]) {
+				break
+			}
+		}
+	}
+}
+
 // c09extEarly: v1 output of a struct whose Go declaration has an extension field before a regular one.
 func c09extEarly(rep *vh.Report, r *vh.RNG) {
 	lay, err := ref.LayoutOf(reflect.TypeOf(MessageVfExtEarly{}))
